@@ -607,7 +607,10 @@ def _expr_chunk(arg) -> dict:
                 res["suspects"].append({"what": "eval", "ast": a, "ctx": ci + 1, "text": text, "pred": pred, **o})
             if len(res["samples"]) < 2 and res["asts"] % 97 == 3:
                 res["samples"].append({"text": text, "ctx": ci + 1, "predicted": pred, "observed": o})
-            if pred[0] == "E" or depth <= 1 or (res["asts"] % engine_every == 0):
+            # engine call sites: every case of depth <= 1, every case at the two defect sites, every error-class
+            # case in quick (a 1/3 sample of them in thorough), and every engine_every-th remaining AST
+            if depth <= 1 or (pred[0] == "E" and (pred[1] in DEFECT_SITES or engine_every <= 7 or res["asts"] % 3 == 0)) \
+                    or (res["asts"] % engine_every == 0):
                 sk, sp = engine_observe(text, ctx0)
                 res["engine_cases"] += 2
                 if not (sk["kind"] == "value" and sk["pure"] == "T" and (sk["skip"] == "T") == bool(skips[ci])):
@@ -638,6 +641,7 @@ def _run_mc_expr(consts: dict) -> tlc.TLCResult:
         shutil.rmtree(rd, ignore_errors=True)
 
 
+DEFECT_SITES = ("usub_nonnumeric", "unhashable_key")
 EXPR_VIOL = {"C20_Total", "C20_Pure", "C20_NoCrash", "C20_SameBranch", "C20_SkipDecision", "C20_SplitDecision"}
 NEED_CLASSES = ["name:value", "const:value", "attr:value", "sub:value", "sub:E.unhashable_key", "slice:E.unsupported_node",
                 "cmp:value", "cmp:E.compare_type", "bool:value", "un:value", "un:E.usub_nonnumeric",
